@@ -486,18 +486,24 @@ Proof.
   - assert (i = 0) by lia. subst i. rewrite (Hb 0 Hi). symmetry. apply Z.mod_small. apply Hwf.
 Qed.
 
+Lemma cell_load_mem : forall p st w, 0 <= w < W ->
+  (forall i, 0 <= i < 32 -> st Mem (p + i) = enc_byte w i) -> out1 (load_op Mem) [p] st = w.
+Proof.
+  intros p st w Hw Hc. rewrite (out1_load Mem p st eq_refl). cbn [dec].
+  assert (E : dec32 (fun i : Z => view (shape_of (load_op Mem)) [p] st Mem (p + i)) = dec32 (enc_byte w)).
+  { apply decn_ext. intros j Hj. change (Z.of_nat 32) with 32 in Hj. unfold view. rewrite (rd_load Mem p j eq_refl Hj). apply Hc. exact Hj. }
+  rewrite E. rewrite (dec_enc w Hw). apply Z.mod_small. exact Hw.
+Qed.
+
 Lemma cell_load : forall s p st w, is_cell_sp s = true -> 0 <= w < W ->
   (forall i, 0 <= i < width s -> st s (p + i) = enc s w i) -> out1 (load_op s) [p] st = w.
 Proof.
-  intros s p st w Hs Hw Hc. rewrite (out1_load s p st Hs).
-  set (b := fun j => view (shape_of (load_op s)) [p] st s (p + j)).
-  assert (Hb : forall j, 0 <= j < width s -> b j = enc s w j).
-  { intros j Hj. subst b. cbn beta. unfold view. rewrite (rd_load s p j Hs Hj). apply Hc. exact Hj. }
-  destruct s; try discriminate; cbn [dec enc width] in *.
-  - unfold dec32. rewrite (decn_ext 32 b (enc_byte w)) by (intros j Hj; apply Hb; cbn in Hj; lia).
-    pose proof (dec_enc w Hw) as D. unfold dec32 in D. rewrite D. apply Z.mod_small. exact Hw.
-  - rewrite (Hb 0) by lia. apply Z.mod_small. exact Hw.
-  - rewrite (Hb 0) by lia. apply Z.mod_small. exact Hw.
+  intros s p st w Hs Hw Hc. destruct s; try discriminate.
+  - apply cell_load_mem; assumption.
+  - rewrite (out1_load Sto p st eq_refl). cbn [dec]. unfold view. rewrite (rd_load Sto p 0 eq_refl) by (cbn; lia).
+    rewrite (Hc 0) by (cbn; lia). cbn [enc]. apply Z.mod_small. exact Hw.
+  - rewrite (out1_load Tra p st eq_refl). cbn [dec]. unfold view. rewrite (rd_load Tra p 0 eq_refl) by (cbn; lia).
+    rewrite (Hc 0) by (cbn; lia). cbn [enc]. apply Z.mod_small. exact Hw.
 Qed.
 
 Lemma ro_ok_inv : forall op, ro_ok op = true ->
@@ -526,8 +532,11 @@ Proof.
   destruct (i_outs i) as [|x [|? ?]] eqn:Ho; [| |destruct Hg].
   - (* no output: store or assert *)
     destruct (store_space (i_op i)) as [s|] eqn:Ss.
-    + destruct (i_args i) as [|v [|p [|? ?]]] eqn:Ha; try destruct Hg as [].
-      destruct Hg as [<-|[]]. destruct (store_space_op _ _ Ss) as [Eop Hs].
+    + destruct (store_space_op _ _ Ss) as [Eop Hs].
+      assert (Na : (i_op i =s "assert") = false) by (rewrite Eop; destruct s; try discriminate; reflexivity).
+      rewrite Na in Hg.
+      destruct (i_args i) as [|v [|p [|? ?]]] eqn:Ha; try contradiction.
+      destruct Hg as [<-|[]].
       destruct (store_not_ctl s Hs) as [Hc Hh]. rewrite <- Eop in Hc, Hh.
       rewrite (step_generic i c Hc Hh) in Hst. cbn zeta in Hst. rewrite Eop in Hst. rewrite (shape_store s Hs) in Hst.
       cbn [sh_fail sh_vol andb] in Hst. destruct Hst as [Hst|[l Hst]]; [|discriminate]. inversion Hst; subst c'; clear Hst.
@@ -538,7 +547,7 @@ Proof.
       rewrite Wr. cbn [sh_must orb andb].
       apply (ex_store X A asz HE s Hs); [apply oval_range|exact Hj].
     + destruct (i_op i =s "assert") eqn:Ea; [|destruct Hg].
-      destruct (i_args i) as [|x [|? ?]] eqn:Ha; try destruct Hg as []. destruct Hg as [<-|[]].
+      destruct (i_args i) as [|x [|? ?]] eqn:Ha; try contradiction. destruct Hg as [<-|[]].
       cbn [holds]. unfold step in Hst. apply seqb_eq in Ea. rewrite Ea in Hst. cbn in Hst. rewrite Ha in Hst. cbn [map hd] in Hst.
       destruct (oval (cv c) x =? 0) eqn:E.
       * destruct Hst as [Hst|[l Hst]]; discriminate.
@@ -559,11 +568,15 @@ Proof.
     assert (Hfe : holds (bind (cv c) [x] outs) st' (FEq (OVar x) (i_op i) (i_args i))).
     { cbn [holds]. split; [exact Ro|]. rewrite Va, Vx. apply out1_ext. exact Hst'. }
     destruct Hg as [<-|Hg]; [exact Hfe|].
+    assert (Hop : forall o, In o (i_args i) -> oval (bind (cv c) [x] outs) o = oval (cv c) o).
+    { intros o Hin. apply (oval_unmentioned (cv c) _ [x]); [intros y Hy; apply bind_other; exact Hy|].
+      intros y [<-|[]]. destruct (is_var x o) eqn:E; [|reflexivity]. exfalso.
+      assert (existsb (is_var x) (i_args i) = true) by (apply existsb_exists; exists o; split; assumption). congruence. }
     destruct (load_space (i_op i)) as [s|] eqn:Ls; [|destruct Hg].
-    destruct (i_args i) as [|p [|? ?]] eqn:Ha; try destruct Hg as []. destruct Hg as [<-|[]].
     destruct (load_space_op _ _ Ls) as [Eop Hs].
+    destruct (i_args i) as [|p [|? ?]] eqn:Ha; try contradiction. destruct Hg as [<-|[]].
     cbn [holds]. split; [exact Hs|]. intros j Hj.
-    cbn [map] in Va. inversion Va as [Vp]. rewrite Vp. rewrite Vx. rewrite Hst'.
+    rewrite (Hop p (or_introl eq_refl)). rewrite Vx. rewrite Hst'.
     subst a. cbn [map]. rewrite Eop. apply load_cell; assumption.
 Qed.
 
@@ -573,5 +586,99 @@ Proof.
   intros F i c c' HF Hwf Hst g Hg. unfold facts_step in Hg. apply in_app_or in Hg. destruct Hg as [Hg|Hg].
   - eapply new_facts_sound; eassumption.
   - apply filter_In in Hg. destruct Hg as [Hin Hs]. eapply survives_sound; eassumption.
+Qed.
+
+(* ------------------------------------------------------------------ a replaced instruction behaves like the original *)
+Definition P0 : sp -> Z -> Prop := fun _ _ => False.
+
+Lemma sres_rel_weaken : forall (P Q : sp -> Z -> Prop) r r', (forall s k, P s k -> Q s k) -> sres_rel P r r' -> sres_rel Q r r'.
+Proof.
+  intros P Q [c|l c|op a v] [c'|l' c'|op' a' v'] H R; cbn in *; try contradiction; try exact R.
+  - eapply ceq_weaken; eassumption.
+  - destruct R as [R1 R2]. split; [exact R1|eapply ceq_weaken; eassumption].
+Qed.
+
+Lemma ceq0_store : forall c c1, ceq P0 c c1 -> store_eq (cs c) (cs c1).
+Proof. intros c c1 [_ [_ H]] s k. apply H. intros []. Qed.
+
+Lemma cell_known_sound : forall F c st s p v, all_hold c st F -> cell_known F asz s p v = true ->
+  is_cell_sp s = true /\ forall j, 0 <= j < width s -> st s (oval c p + j) = enc s (oval c v) j.
+Proof.
+  intros F c st s p v HF H. unfold cell_known in H. apply existsb_exists in H. destruct H as [g [Hg H]].
+  destruct g as [| s' p' v' |]; try discriminate.
+  apply andb_true_iff in H. destruct H as [H H3]. apply andb_true_iff in H. destruct H as [H1 H2].
+  apply sp_eqb_eq in H1. subst s'. destruct (HF _ Hg) as [Hs Hc].
+  rewrite <- (eqv_sound F c st p' p HF H2). rewrite <- (eqv_sound F c st v' v HF H3). split; assumption.
+Qed.
+
+Lemma value_known_sound : forall F c st op args v, all_hold c st F -> value_known F asz op args v = true ->
+  out1 op (map (oval c) args) st = oval c v.
+Proof.
+  intros F c st op args v HF H. unfold value_known in H. apply existsb_exists in H. destruct H as [g [Hg H]].
+  destruct g as [w op' a' | |]; try discriminate.
+  apply andb_true_iff in H. destruct H as [H H3]. apply andb_true_iff in H. destruct H as [H1 H2].
+  apply seqb_eq in H1. subst op'. destruct (HF _ Hg) as [_ Hv].
+  rewrite <- (eqv_sound F c st w v HF H3). rewrite <- Hv. f_equal. symmetry.
+  eapply list_eqb_vals; [|exact H2]. intros a b _ E. eapply eqv_sound; eassumption.
+Qed.
+
+Lemma justified_sound : forall F i i' c c1, all_hold (cv c) (cs c) F -> wf_store (cs c) -> ceq P0 c c1 ->
+  justified F asz i i' = true -> sres_rel P0 (step X i c) (step X i' c1).
+Proof.
+  intros F i i' c c1 HF Hwf Hc J. unfold justified in J.
+  apply orb_true_iff in J. destruct J as [J|J]; [apply orb_true_iff in J; destruct J as [J|J]|].
+  - apply inst_eqb_eq in J. subst i'.
+    eapply sres_rel_weaken; [|apply (step_rel X P0 i c c1 HX Hc); intros s k _ []]. intros s k [[] _].
+  - (* replaced by a copy *)
+    destruct (i_outs i) as [|x [|? ?]] eqn:Ho; try discriminate.
+    destruct (i_args i') as [|v [|? ?]] eqn:Ha'; try discriminate.
+    apply andb_true_iff in J. destruct J as [J K]. apply andb_true_iff in J. destruct J as [J Ro].
+    apply andb_true_iff in J. destruct J as [Eop Eo]. apply seqb_eq in Eop.
+    apply (list_eqb_eq _ N.eqb (fun a b => proj1 (N.eqb_eq a b))) in Eo.
+    destruct (ro_step i c Ro) as [st [E1 S1]]. rewrite E1.
+    assert (Ro' : ro_ok (i_op i') = true) by (rewrite Eop; reflexivity).
+    destruct (ro_step i' c1 Ro') as [st1 [E2 S2]]. rewrite E2. rewrite Eop, Ha', Eo, Ho. cbn [map].
+    rewrite (ex_assign X A asz HE).
+    destruct Hc as [Hv [Ht Hs]].
+    assert (Val : out1 (i_op i) (map (oval (cv c)) (i_args i)) (cs c) = oval (cv c) v).
+    { apply orb_true_iff in K. destruct K as [K|K]; [eapply value_known_sound; eassumption|].
+      destruct (load_space (i_op i)) as [s|] eqn:Ls; [|discriminate].
+      destruct (i_args i) as [|p [|? ?]]; try discriminate.
+      destruct (load_space_op _ _ Ls) as [Eo' Hs']. destruct (cell_known_sound F _ _ s p v HF K) as [_ Hcell].
+      rewrite Eo'. cbn [map]. apply cell_load; [exact Hs'|apply oval_range|exact Hcell]. }
+    cbn [sres_rel]. repeat split; cbn [cv cs ct].
+    + intros y. cbn [bind hd tl]. destruct (N.eqb y x); [|apply Hv].
+      unfold out1 in Val. rewrite Val. rewrite (oval_ext _ _ v Hv). symmetry. apply Z.mod_small. apply oval_range.
+    + lia.
+    + intros s k _. rewrite S1, S2. apply Hs. intros [].
+  - (* deleted: the cell already holds the value / the assertion has already passed *)
+    apply andb_true_iff in J. destruct J as [J K]. apply andb_true_iff in J. destruct J as [J No].
+    apply andb_true_iff in J. destruct J as [Eop No']. apply seqb_eq in Eop.
+    destruct (i_outs i') eqn:Ho'; [|discriminate]. destruct (i_outs i) eqn:Ho; [|discriminate].
+    assert (Ro' : ro_ok (i_op i') = true) by (rewrite Eop; reflexivity).
+    destruct (ro_step i' c1 Ro') as [st1 [E2 S2]]. rewrite E2. rewrite Ho'. cbn [bind].
+    destruct Hc as [Hv [Ht Hs]].
+    destruct (store_space (i_op i)) as [s|] eqn:Ss.
+    + destruct (i_args i) as [|v [|p [|? ?]]] eqn:Ha; try discriminate.
+      destruct (store_space_op _ _ Ss) as [Eo Hs']. destruct (store_not_ctl s Hs') as [Hc Hh]. rewrite <- Eo in Hc, Hh.
+      rewrite (step_generic i c Hc Hh). cbn zeta. rewrite Eo. rewrite (shape_store s Hs').
+      cbn [sh_fail sh_vol andb]. rewrite Ho, Ha. cbn [bind map sres_rel]. repeat split; cbn [cv cs ct]; [exact Hv|lia|].
+      intros s' k _. rewrite S2. rewrite <- (Hs s' k (fun f => f)).
+      destruct (cell_known_sound F _ _ s p v HF K) as [_ Hcell].
+      unfold merge. destruct (wr _ _ s' k) eqn:Wr; [|reflexivity]. cbn [sh_must orb andb].
+      unfold wr in Wr. cbn [sh_wall sh_w in_sps existsb orb] in Wr. rewrite orb_false_r in Wr.
+      unfold in_cr, conc_range in Wr. cbn [cr_sp cr_lo cr_len sr_sp sr_ptr sr_size aget a1 nth] in Wr.
+      apply andb_true_iff in Wr. destruct Wr as [Wr W3]. apply andb_true_iff in Wr. destruct Wr as [W1 W2].
+      apply sp_eqb_eq in W1. subst s'. apply Z.leb_le in W2. apply Z.ltb_lt in W3.
+      replace k with (oval (cv c) p + (k - oval (cv c) p)) by lia.
+      rewrite (ex_store X A asz HE s Hs') by (try apply oval_range; lia).
+      symmetry. apply Hcell. lia.
+    + destruct (i_args i) as [|x [|? ?]] eqn:Ha; try discriminate.
+      apply andb_true_iff in K. destruct K as [Ea K]. apply seqb_eq in Ea.
+      unfold nz_known in K. apply existsb_exists in K. destruct K as [g [Hg K]]. destruct g as [| |x']; try discriminate.
+      pose proof (HF _ Hg) as Nz. cbn [holds] in Nz. rewrite (eqv_sound F _ _ x' x HF K) in Nz.
+      unfold step. rewrite Ea. cbn. rewrite Ha. cbn [map hd].
+      destruct (oval (cv c) x =? 0) eqn:E; [apply Z.eqb_eq in E; contradiction|].
+      cbn [sres_rel]. repeat split; cbn [cv cs ct]; [exact Hv|lia|]. intros s k _. rewrite S2. apply Hs. intros [].
 Qed.
 End Facts.
